@@ -107,6 +107,15 @@ def run(chk):
                    fprofile.acall(["a", "b"], "<func>g2", [fprofile.V("a"), fprofile.V("b")]), fprofile.assign(fprofile.N, fprofile.S(fprofile.V("a"), fprofile.V("b")))]
     methods = [{"phases": [{"name": "p0", "next": "p0", "calls": c}, {"name": "p1", "next": "p0", "calls": fprofile.P1_CALLS}],
                 "initial": "p0"} for c in programs]
+    # methods over a different vocabulary of persistent names and phases (what an earlier generator object in
+    # the same process may have seen)
+    A_, S_, V_, C_ = fprofile.assign, fprofile.S, fprofile.V, fprofile.C
+    other = [[A_("<state>z", C_(1)), A_("<state>aux", S_(V_("<state>z"), C_(2))), A_("<p>k_prev", V_("<state>aux")),
+              fprofile.yield_(V_("<state>z"), comp="z")],
+             [A_("<p>zz", C_(3)), A_("<state>b2", S_(V_("<p>zz"), V_("<t>"))), A_("<state>a1", V_("<state>b2"))]]
+    for k, c in enumerate(other):
+        methods.insert(3 + 7 * k, {"phases": [{"name": "main", "next": "main", "calls": c}], "initial": "main"})
+        programs.insert(3 + 7 * k, c)
     seeds = [0, 1, 2, 3, 4, 5] if chk.quick else list(range(12))
     presentations = [[0, False], [1, True], [2, False]] if chk.quick else [[0, False], [1, True], [2, False], [3, True], [4, False]]
     procs = []
